@@ -45,11 +45,13 @@ pub struct GCase {
     pub dev_stride: usize,
     /// explore wire-level (copy-constraint) deviations of the gadget's rows
     pub rewire: bool,
+    /// how many pure copy breaks are replayed on the real prover per case
+    pub rewire_confirm_cap: usize,
 }
 
 impl GCase {
     pub fn new(g: Gadget, expect: Expect, class: &str) -> Self {
-        GCase { g, expect, class: class.to_string(), extra: None, named: None, bound2: false, confirm: true, dev_stride: 1, rewire: false }
+        GCase { g, expect, class: class.to_string(), extra: None, named: None, bound2: false, confirm: true, dev_stride: 1, rewire: false, rewire_confirm_cap: 32 }
     }
 }
 
@@ -235,7 +237,7 @@ pub fn run_case(c: &GCase, cache: &ConfirmCache) -> CaseReport {
                             ordered.push(rw);
                         }
                     }
-                    for rw in ordered.into_iter().take(32) {
+                    for rw in ordered.into_iter().take(c.rewire_confirm_cap) {
                         let p = rewired_prog(&h, rw);
                         let real = conf.run_prog(&p);
                         rep.confirmed += 1;
